@@ -485,7 +485,9 @@ pub fn check(tier: Tier) -> i32 {
             run_big(ty, n, ctx, tick);
         }
     });
-    let st = selftest();
+    // the self-test runs the library too: on a tree that panics there it counts as failed (a verdict, if there is one,
+    // takes precedence over it)
+    let st = catch(|| selftest()).unwrap_or((1, 0));
     finish(
         RunInfo {
             prop: "C05",
